@@ -48,7 +48,9 @@ def dip_cfgs():
 def ragged_cfgs():
     """coefficient lists of DIFFERENT lengths (the constructor pads the shorter ones with zeros): zs two entries shorter than rc, a one-entry zc, rs absent"""
     return [dict(rc=[1.0, 0.1, 0.01, 0.002], zs=[0.0, 0.1], zc=[0.05], nfp=2, etabar=1.0, order='r1', nphi=31),
-            dict(rc=[1.0, 0.06], zs=[0.0, 0.05, 0.004, 0.001], rs=[0.0, 0.003, 0.001], nfp=3, etabar=1.1, order='r1', nphi=31)]
+            dict(rc=[1.0, 0.06], zs=[0.0, 0.05, 0.004, 0.001], rs=[0.0, 0.003, 0.001], nfp=3, etabar=1.1, order='r1', nphi=31),
+            # more harmonics than the grid resolves (9 on 11 points): the axis arrays are still the values of the INPUT curve at the grid points
+            dict(rc=[1.0] + [0.09 * 0.45 ** k for k in range(8)], zs=[0.0] + [0.08 * 0.45 ** k for k in range(8)], nfp=2, etabar=1.0, order='r1', nphi=11)]
 
 
 def predict(cfg, rng, q=None, axis_only=False):
